@@ -246,6 +246,16 @@ impl<T: 'static+Send> Desync<T> {
     }
 }
 
+#[cfg(feature = "verif-hooks")]
+impl<T: Send> Desync<T> {
+    ///
+    /// (Verification hook) The job queue that this object schedules its operations on
+    ///
+    pub fn verif_queue(&self) -> &Arc<JobQueue> {
+        &self.queue
+    }
+}
+
 impl<T: Send> Drop for Desync<T> {
     fn drop(&mut self) {
         use std::thread;
